@@ -8,7 +8,7 @@ import copy, json, os, shutil, sys
 from . import core, drive, tlc
 from .props.common import call, pcall, sw_dict
 
-JB = "CONSTANTS Slots = {1, 2, 3} Items = {1, 2, 3, 100} MaxBins = 12\n"
+JB = "CONSTANTS Slots = {1, 2, 3} Items = {1, 2, 3, 100, 101} MaxBins = 12\n"
 
 
 def experiments():
